@@ -603,7 +603,7 @@ func ruleC04Assembled(p *Program, r *Run) {
 					if i >= len(v.Rhs) {
 						continue
 					}
-					if f := selField(info, l); f != nil && f.Name() == "sourceSQL" {
+					if f := selField(info, l); f != nil && fldName(f) == "sourceSQL" {
 						n++
 						r.Check(isBuilderString(v.Rhs[i]), "C04/assembled", fmt.Sprintf("%s store #%d to subquery.sourceSQL", fn, n), p.Pos(v.Pos()), "contents of a builder (every write into it is a checked emission)", "subquery.sourceSQL, which is later written into the SQL verbatim, is assembled by hand ("+exprStr(v.Rhs[i])+") instead of through a builder whose writes are checked: names reach the SQL unescaped")
 					}
